@@ -54,7 +54,9 @@ RULE = (
     "swaps or by uniformly random permutation are accepted exactly when the "
     "independent precedence graph is acyclic, the result then being feasible, "
     "complete and realising exactly those sequences; otherwise "
-    "ValidationError; each call runs under a 20 s alarm. Non-trivial: "
+    "ValidationError; each call runs under a 20 s alarm. Kind 'benchmark': "
+    "load_benchmark_instance / load_all_benchmark_instances against the JSON "
+    "file read independently (5 fixed names + generated ones). Non-trivial: "
     "instance irregular, flexible or with recirculation; sequences case with a "
     "cyclic input or an accepted input different from seq(S)."
 )
@@ -94,7 +96,14 @@ def strategy(tier):
             "meta": st.dictionaries(st.sampled_from(["a", "b"]), st.integers(0, 5), max_size=2),
         }
     )
-    return gen.weighted((1, k_inst), (1, k_sched))
+    k_bench = st.fixed_dictionaries(
+        {"kind": st.just("benchmark"), "name": st.integers(0, 10**6)}
+    )
+    return gen.weighted((8, k_inst), (8, k_sched), (1, k_bench))
+
+
+def fixed_cases(tier):
+    return [{"kind": "benchmark", "name": n} for n in ("ft06", "la01", "abz5", "orb07", "ta01")]
 
 
 # ------------------------------------------------------------------ views
@@ -461,9 +470,44 @@ def schedule_case(case, ctx):
     ctx.nontrivial = (not ok) or perm != seqs
 
 
+def benchmark_case(case, ctx):
+    """Benchmark instances shipped with the library: the loader must give the
+    instance described by benchmark_instances.json (read independently)."""
+    from job_shop_lib.benchmarking import load_all_benchmark_instances, load_benchmark_instance
+
+    repo = os.environ.get("JSL_REPO", "/repo")
+    with open(os.path.join(repo, "job_shop_lib", "benchmarking", "benchmark_instances.json"), encoding="utf-8") as f:
+        data = json.load(f)
+    names = sorted(data)
+    name = case["name"] if isinstance(case["name"], str) else names[case["name"] % len(names)]
+    entry = data[name]
+    inst = {
+        "durations": [list(r) for r in entry["duration_matrix"]],
+        "machines": [[[x] if isinstance(x, int) else list(x) for x in r] for r in entry["machines_matrix"]],
+        "name": name,
+        "meta": dict(entry["metadata"]),
+    }
+    instance = load_benchmark_instance(name)
+    check_views(ctx, inst, instance, f"load_benchmark_instance({name!r})")
+    again = load_benchmark_instance(name)
+    ctx.check(again is not instance, "benchmark-shared-object", "load_benchmark_instance returns a shared object")
+    same_content(ctx, "roundtrip:benchmark-dict", instance, JobShopInstance.from_matrices(**json.loads(json.dumps(instance.to_dict()))), "benchmark via JSON")
+    before = identity_fp(instance)
+    DispatchingRuleSolver("most_work_remaining")(instance)
+    ctx.check(before == identity_fp(instance), "instance-modified", "benchmark instance modified by a solver")
+    check_views(ctx, inst, instance, f"benchmark {name} after a solver run")
+    allb = load_all_benchmark_instances()
+    ctx.check(sorted(allb) == names, "benchmark-names", "load_all_benchmark_instances keys differ from the JSON file")
+    same_content(ctx, "benchmark-all", instance, allb[name], f"load_all_benchmark_instances()[{name!r}]")
+    ctx.label("benchmark")
+    ctx.nontrivial = True
+
+
 def check_case(case, ctx):
     ctx.label("kind=" + case["kind"])
-    if case["kind"] == "instance":
+    if case["kind"] == "benchmark":
+        benchmark_case(case, ctx)
+    elif case["kind"] == "instance":
         instance_case(case, ctx)
     else:
         schedule_case(case, ctx)
